@@ -70,6 +70,7 @@ type replayJob struct {
 	Tier     int      `json:"tier"`
 	Vector   []uint64 `json:"vector"`
 	Label    string   `json:"label,omitempty"`
+	Known    []string `json:"known"`
 	Observes []string `json:"observes,omitempty"`
 	Property string   `json:"property,omitempty"`
 	What     string   `json:"what,omitempty"`
@@ -334,6 +335,15 @@ func runCheck(id, tier string, verbose bool, only string, workers int, noval boo
 		jobs = append(jobs, replayJob{ID: fmt.Sprintf("cex-%d", i), Harness: v.h.Fn, Tier: tierN, Vector: vec, Label: v.out.Label, Observes: v.out.Observes, Property: id})
 	}
 	all := append(append([]replayJob{}, jobs...), valJobs...)
+	var openKnown []string
+	for _, kf := range g.known.Findings {
+		if kf.Status == "open" {
+			openKnown = append(openKnown, kf.ID)
+		}
+	}
+	for i := range all {
+		all[i].Known = openKnown
+	}
 	var nativeRes map[string]replayResult
 	if len(all) > 0 && !noval {
 		var out string
